@@ -205,6 +205,10 @@ def run(tier, seed):
     bs = banners(tier)
     tasks = [(b, k) for b in bs for k in PEER_KINDS]
     st = par.pmap(work, tasks, chunk=4)
+    vcases = []
+    for (prod, version, banner), kind in H.pick(tasks, seed, 12 if tier == 'quick' else 60):
+        vcases.append({'label': '%s %s' % (banner, kind), 'opts': ['-n'] + (['-j'] if len(vcases) % 2 else []), 'make': (lambda kind=kind, banner=banner: make_server(kind, banner)[0])})
+    validated = H.validate_traces(vcases, st)
     return evidence.finish(
         PID, tier, seed, st, t0,
         rule='%d banners (OpenSSH/Dropbear/libssh at every first-appeared version in the DB, its nearest neighbours and multi-digit versions; TinySSH; '
@@ -212,7 +216,7 @@ def run(tier, seed):
              'OpenSSH 2048-bit GEX; Terrapin-hardened; unknown names) x {json, text}' % (len(bs), len(PEER_KINDS)),
         assumptions=['ratings are read from the same report (JSON notes); availability uses numeric version order',
                      'entries without any version information are not required either way'],
-        exhaustive=True, extra={'banners': len(bs)})
+        exhaustive=True, traces_validated=validated, extra={'banners': len(bs)})
 
 
 def replay(path):
